@@ -396,21 +396,40 @@ def buffer_commit_rule(ctx, rid, classes):
              'before rebinding; create() copies an input array it would otherwise alias', floor=6, style='MPT')
     for cq in classes:
         ci = repo.cls(cq)
-        for mn, fn in sorted(ci.methods.items()):
-            if mn in ('__init__', 'copy', 'create', '_swap_target_tensor_for', 'kron', 'factor', 'reindex'):
-                continue
+        skip = ('__init__', 'copy', 'create', '_swap_target_tensor_for', 'kron', 'factor', 'reindex')
+
+        def direct_writes(fn, helpers):
             writes = []
             for n in ast.walk(fn):
                 if isinstance(n, ast.Call):
                     o = kwarg(n, 'out')
                     if o is not None and is_self_attr(o) and 'buffer' in o.attr:
                         writes.append(n)
-                    ob = kwarg(n, 'out_buffer')
+                    if isinstance(n.func, ast.Attribute) and isinstance(n.func.value, ast.Name) and n.func.value.id == 'self' and n.func.attr in helpers:
+                        writes.append(n)
                 if isinstance(n, ast.AugAssign) and is_self_attr(n.target) and 'buffer' in n.target.attr:
                     writes.append(n)
+            return writes
+
+        def swaps_of(fn):
+            return [c for c in ast.walk(fn) if isinstance(c, ast.Call) and call_name(c) == '_swap_target_tensor_for']
+        # a private method that fills the buffer and leaves the commit to its callers is a *writer helper*: a call of it counts as a write in the caller
+        helpers = set()
+        for _ in range(3):
+            for mn, fn in ci.methods.items():
+                if mn in skip or mn in helpers or not (mn.startswith('_') and not mn.startswith('__')):
+                    continue
+                if direct_writes(fn, helpers) and not swaps_of(fn) and any(
+                        isinstance(c, ast.Call) and isinstance(c.func, ast.Attribute) and c.func.attr == mn and isinstance(c.func.value, ast.Name) and c.func.value.id == 'self'
+                        for f2 in ci.methods.values() if f2 is not fn for c in ast.walk(f2)):
+                    helpers.add(mn)
+        for mn, fn in sorted(ci.methods.items()):
+            if mn in skip or mn in helpers:
+                continue
+            writes = direct_writes(fn, helpers)
             if not writes:
                 continue
-            swaps = [c for c in ast.walk(fn) if isinstance(c, ast.Call) and call_name(c) == '_swap_target_tensor_for']
+            swaps = swaps_of(fn)
             last_write = max(w.lineno for w in writes)
             ok = bool(swaps) and max(s.lineno for s in swaps) > last_write
             ctx.ob(rid, f'{cq}.{mn}:commit-after-write', ok, '' if ok else f'{mn} computes into the scratch buffer but never commits it as the new state', ci.mod.rel, fn.lineno)
